@@ -76,8 +76,9 @@ inductive Cert where
   | mismatch (msg : String)
 
 /-- Is the relative stack "extras above exactly one non-extra node for `A` with `n` tokens"? -/
-def targetEntry (st : LR.Stack) (A n : Nat) : Option LR.Entry :=
-  match st.filter (fun e => !e.extra) with
+def targetEntry (st : LR.Stack) (A n : Nat) (wantExtra : Bool := false) : Option LR.Entry :=
+  -- a reused NON-TERMINAL EXTRA (e.g. a comment node) is itself pushed as an extra entry
+  match (if wantExtra then st else st.filter (fun e => !e.extra)) with
   | [e] =>
     match e.tree with
     | .node s _ => if s == A && LR.PTree.tokens e.tree == n then some e else none
@@ -86,17 +87,22 @@ def targetEntry (st : LR.Stack) (A n : Nat) : Option LR.Entry :=
 
 /-- Run the machine from state `s` on an empty frame over `w ++ u` until `t` (symbol `A`, `|w|`
 tokens, visible structure `shape`) stands in front of the last token of `u`. -/
-def certifyReuse (L : LRData) (s A : Nat) (w u : List Tok) (shape : Array (Nat × Nat)) : Cert := Id.run do
+def certifyReuse (L : LRData) (s A : Nat) (w u : List Tok) (shape : Array (Nat × Nat)) (isExtra : Bool := false) : Cert := Id.run do
   let mut st : LR.Stack := []
   let mut inp := w ++ u
   let fuel := 4 * (w.length + u.length) + 16
   for i in [0:fuel] do
     if inp.length == 1 then
-      if let some e := targetEntry st A w.length then
+      if let some e := targetEntry st A w.length isExtra then
         if e.state != L.table.goto s A then return .mismatch s!"state {e.state} ≠ goto({s},{A})"
         let got := shapeP L.visible e.tree 0 true #[]
         if got == shape then return .ok i
         else return .mismatch s!"machine built a different subtree for symbol {A} from state {s}"
+    if L.table.noLookahead (LR.top s st) then
+      match LR.step L.table s st inp with
+      | some (st', inp') => st := st'; inp := inp'
+      | none => return .stuck s!"no reduction at the end of a non-terminal extra in state {LR.top s st}"
+    else
     match inp with
     | [] => return .stuck "input exhausted"
     | x :: _ =>
@@ -113,6 +119,11 @@ def validateDocument (L : LRData) (start : Nat) (root : Tree) : Cert := Id.run d
   let mut inp := toks
   let fuel := 6 * toks.length + 32
   for i in [0:fuel] do
+    if L.table.noLookahead (LR.top start st) then
+      match LR.step L.table start st inp with
+      | some (st', inp') => st := st'; inp := inp'
+      | none => return .stuck s!"no reduction at the end of a non-terminal extra in state {LR.top start st}"
+    else
     match inp with
     | [] => return .stuck "input exhausted before accept"
     | x :: _ =>
@@ -154,19 +165,20 @@ def stepWith (T : LR.Table) (bottom : Nat) (a : LR.Action) (st : LR.Stack) (inp 
 
 /-- All successors of a version (empty when it is stuck or accepts). -/
 def successors (L : LRData) (bottom : Nat) (st : LR.Stack) (inp : List Tok) : List (LR.Stack × List Tok) :=
+  if L.table.noLookahead (LR.top bottom st) then (LR.step L.table bottom st inp).toList else
   match inp with
   | [] => []
   | x :: _ => (L.actions (LR.top bottom st) x.sym).filterMap (fun a => stepWith L.table bottom a st inp)
 
 /-- GLR variant of `certifyReuse`. -/
-def certifyReuseGLR (L : LRData) (s A : Nat) (w u : List Tok) (shape : Array (Nat × Nat)) : Cert := Id.run do
+def certifyReuseGLR (L : LRData) (s A : Nat) (w u : List Tok) (shape : Array (Nat × Nat)) (isExtra : Bool := false) : Cert := Id.run do
   let mut versions : List (LR.Stack × List Tok) := [([], w ++ u)]
   let fuel := 4 * (w.length + u.length) + 16
   for i in [0:fuel] do
     let mut next : List (LR.Stack × List Tok) := []
     for (st, inp) in versions do
       if inp.length == 1 then
-        if let some e := targetEntry st A w.length then
+        if let some e := targetEntry st A w.length isExtra then
           if e.state == L.table.goto s A && shapeP L.visible e.tree 0 true #[] == shape then return .ok i
       next := next ++ successors L s st inp
     if next.isEmpty then return .stuck "all versions stuck"
@@ -186,7 +198,7 @@ def validateDocumentGLR (L : LRData) (start : Nat) (root : Tree) : Cert := Id.ru
       match inp with
       | [] => pure ()
       | x :: _ =>
-        if (L.actions (LR.top start st) x.sym).contains .accept then
+        if !L.table.noLookahead (LR.top start st) && (L.actions (LR.top start st) x.sym).contains .accept then
           match (st.filter (fun e => !e.extra)) with
           | [r] =>
             match r.tree with
